@@ -11,7 +11,6 @@ NA = {
     "C04": "termination and 1.5 s / 3 s real-time bounds over the whole event history of a search are liveness properties; Verus proves termination of single calls only and Kani has no notion of time or termination",
     "C11": "freshness within 30 s / purge within 20 min over arbitrarily long runs is liveness over a 6-second timer chain, the network and the refresh cursor; only the per-call pieces (C10, C18) are contracts",
     "C14": "the failing behaviour (allocation of a declared length, recursion depth, abort) lives inside serde_bencode and outside both verifiers' memory model (allocation always succeeds in CBMC and Verus); 'keeps serving after any datagram sequence' is liveness of the event loop",
-    "C15": "bootstrap is a spawned task built from select!, watch, FuturesUnordered, sleeps and retries; the property is liveness (resolves within ~11 min, stays alive) and its one safety piece depends on state shared across tasks, which neither verifier models",
 }
 NOT_REACHED = "claimed in DESIGN.md but its unit is not built yet in this tree (contract-based check planned; never claimed in weakened form)"
 
